@@ -66,6 +66,12 @@ def case_fn(case: dict, d):
             else:
                 stale = b"# stale\n"
             dst.write_bytes(stale)
+    for pre in case.get("prelude", []):
+        # earlier generations IN THIS PROCESS (other project root, other core package, possibly the same status codes): nothing of them
+        # may show up in what is generated next
+        e2e.generate(pre["doc"], d / pre["root"], package=pre["package"], core=pre.get("core"))
+    for sib in case.get("siblings", []):
+        e2e.generate(sib["doc"], root, package=sib["package"], core=case.get("core"))      # other clients of the SAME shared core
     gen = e2e.generate(case["doc"], root, package=case["package"], core=case.get("core"))
     if not gen["ok"]:
         return {"gen_ok": False, "gen_error": gen["error"]}
@@ -108,7 +114,8 @@ def judge(case: dict, res: dict, rt: dict[str, str], patterns: list[tuple[str, s
             continue
         m = row["module"]
         top = m.split(".")[0]
-        own = m == pkg or m.startswith(pkg + ".") or m == core or m.startswith(core + ".")
+        owns = [pkg, core] + [sb["package"] for sb in case.get("siblings", [])]
+        own = any(m == o or m.startswith(o + ".") for o in owns)
         if top == "pyopenapi_gen":
             fails.append(("imports-generator", f"{row['file']}:{row['line']} imports {m}", row))
         elif not (own or top in std or top in ALLOWED_THIRD):
@@ -146,9 +153,18 @@ def check(run: Run, ctx) -> None:
     cases = []
     for i in range(ctx.budget(24, 240)):
         r = rng(f"C12:{i}")
-        o = gs.Opts(mainstream=True, unions=(i % 3 == 0), streaming=(i % 4 == 0), multi_content=(i % 5 == 0), formats=("date-time", "date", "byte", "uuid"))
+        o = gs.Opts(mainstream=True, unions=(i % 3 == 0), streaming=(i % 4 == 0), multi_content=(i % 5 == 0), formats=("date-time", "date", "byte", "uuid"), yaml_media=(i % 2 == 0), multi_media_resp=(i % 4 == 1))
         pkg, core = LAYOUTS[i % len(LAYOUTS)]
         cases.append({"id": f"c12-{i}", "doc": gs.gen_spec(r, o), "package": pkg, "core": core, "stale_core": (1 + i % 3) if i % 2 else 0})
+    # shared cores with the SAME union of status codes generated one after the other in one process (two project roots, two core packages)
+    def codes_doc(title, codes):
+        return {"openapi": "3.0.3", "info": {"title": title, "version": "1"}, "components": {"schemas": {}}, "paths": {"/x": {"get": {
+            "operationId": "getX", "responses": {"200": {"description": "ok"}, **{str(c): {"description": f"e{c}"} for c in codes}}}}}}
+    for j, (ca, cb) in enumerate([([404], [404, 500]), ([409, 422], [409, 422, 503]), ([], [401])][: ctx.budget(2, 3)]):
+        cases.append({"id": f"c12-shared-{j}", "doc": codes_doc("D", ca), "package": "backoffice.admin", "core": "backoffice.core", "stale_core": 0,
+                      "siblings": [{"doc": codes_doc("C", cb), "package": "backoffice.reports"}],
+                      "prelude": [{"doc": codes_doc("B", cb), "root": "other", "package": "shopfront.web", "core": "shopfront.core"},
+                                  {"doc": codes_doc("A", ca), "root": "other", "package": "shopfront.mobile", "core": "shopfront.core"}]})
     results = e2e.run_cases("vf.props.C12:case_fn", cases)
     nimports = 0
     for case, res in zip(cases, results):
@@ -170,7 +186,7 @@ def check(run: Run, ctx) -> None:
             if fid and known.listed(fid):
                 known.hit(fid, {"id": case["id"], "msg": msg})
             elif len(run.violations) < 5:
-                run.violation("input", {"doc": case["doc"], "package": case["package"], "core": case.get("core"), "stale_core": case.get("stale_core", 0)}, observed=msg,
+                run.violation("input", {k: case.get(k) for k in ("doc", "package", "core", "stale_core", "siblings", "prelude") if case.get(k) is not None}, observed=msg,
                               expected="only relative / own package / core package / stdlib / httpx / cattrs imports; runtime files byte-identical", what=f"{cls}: {msg}")
     run.cov["import_statements_classified"] = nimports
     run.cov["dynamic_import_call_sites"] = len(dyn)
